@@ -1,8 +1,14 @@
 ------------------------------ MODULE TraceC04 ------------------------------
-(* Code -> spec for C04: a case is one executed history                                          *)
-(*   [steps |-> << [proc, prog, mode, seed, obs |-> <<pyi digest, errs digest, pickle digest>>,   *)
-(*                  errs |-> <<<<line, name, msg digest>>>>] >>]                                   *)
-(* replayed through Determinism's Observe action; the spec's table must stay consistent.          *)
+(* Code -> spec for C04: a case is one executed history (a session of worker processes)          *)
+(*   [steps |-> << [proc, seed, prog, opt, mode, warm,                                            *)
+(*                  obs |-> <<pyi digest, error report digest, pickle digest>>,                    *)
+(*                  errs |-> <<<<line, name, identity digest>>>>] >>]                               *)
+(* replayed through Determinism's Observe action (the spec itself keeps the per-process amount of  *)
+(* earlier work and the set of observations per (program, options)).  Verdict per step:            *)
+(*   differs : some earlier observation of the same (program, options) differs from this one; the  *)
+(*             report names which parts differ and the circumstances (hash seed / earlier work /   *)
+(*             loader mode) that distinguish the CLOSEST differing observation                     *)
+(*   errors-unsorted-or-duplicated : the error report is not sorted by line or has duplicates      *)
 EXTENDS Determinism, IOUtils, TLCExt
 
 Cases == JsonDeserialize(IOEnv.TRACE_FILE)
@@ -12,21 +18,39 @@ TInit == Init /\ i = 1 /\ k = 0 /\ TLCSet(1, FALSE)
 Step ==
   /\ i <= Len(Cases) /\ k < Len(Cases[i].steps)
   /\ LET s == Cases[i].steps[k + 1] IN
-       Observe(s.proc, s.prog, s.mode, s.obs[1] \o "|" \o s.obs[2] \o "|" \o s.obs[3])
+       Observe(s.proc, s.seed, s.prog, s.opt, s.mode, s.warm, s.obs)
   /\ k' = k + 1 /\ i' = i
 NextCase ==
   /\ i <= Len(Cases) /\ k = Len(Cases[i].steps)
   /\ i' = i + 1 /\ k' = 0
-  /\ hist' = <<>> /\ table' = [p \in Progs |-> ""] /\ ok' = TRUE
+  /\ hist' = <<>> /\ seen' = <<>> /\ work' = <<>> /\ ok' = TRUE /\ fam' = fam
   /\ (i' > Len(Cases) => TLCSet(1, TRUE))
 TNext == Step \/ NextCase
 
+Diff ==
+  IF i > Len(Cases) \/ k = 0 THEN <<>>
+  ELSE LET s == Cases[i].steps[k] IN DiffReport(s.prog, s.opt, s.proc)
 Fails ==
   IF i > Len(Cases) \/ k = 0 THEN {}
   ELSE LET s == Cases[i].steps[k] IN
-       (IF ~ok THEN {"differs"} ELSE {})
+       (IF Diff # <<>> THEN {"differs"} ELSE {})
        \cup (IF ~SortedUnique(s.errs) THEN {"errors-unsorted-or-duplicated"} ELSE {})
 
-Ok == LET f == Fails IN f = {} \/ PrintT(<<"BAD", ToJson([i |-> i, k |-> k, fails |-> f])>>)
+(* the spec's own bookkeeping agrees with the verdict: ok is FALSE exactly from the first        *)
+(* differing observation on                                                                      *)
+Agree == (i > Len(Cases) \/ k = 0) \/ ("differs" \in Fails => ~ok)
+
+(* coverage of a finished case, computed from the spec state: per (program, options) the number  *)
+(* of analyses and of distinct hash seeds / amounts of earlier work / loader modes among them    *)
+CovInv ==
+  (i <= Len(Cases) /\ k > 0 /\ k = Len(Cases[i].steps)) =>
+    PrintT(<<"COV", ToJson([i |-> i, per |->
+      {[prog |-> key[1], opt |-> key[2], n |-> Cardinality(seen[key]),
+        seeds |-> Cardinality({x.c.seed : x \in seen[key]}),
+        works |-> Cardinality({x.c.work : x \in seen[key]}),
+        modes |-> Cardinality({x.c.mode : x \in seen[key]})] : key \in DOMAIN seen}])>>)
+
+Ok == LET f == Fails IN
+      f = {} \/ PrintT(<<"BAD", ToJson([i |-> i, k |-> k, fails |-> f, diff |-> Diff])>>)
 Done == TLCGet(1)
 =============================================================================
